@@ -136,6 +136,17 @@ def run(ctx):
                         res.violation("get_module_info", f"get_module_info({slot}) over path {path!r} -> {info!r:.200}; slot holds {idn.name!r} serial {idn.serial:08x}", None)
                     for d_ in routes.values():
                         d_.responder = responder
+                # an empty slot: the chassis refuses the route; the helper may only fail with a library exception (documented: ResponseError)
+                empty = [s_ for s_ in range(18) if (tuple(hops[:-1]) + ((1, s_),) if hops else ((1, s_),)) not in routes]
+                if empty:
+                    slot = rng.choice(empty)
+                    st, info = b.call("get_module_info", drv.get_module_info, slot)
+                    res.ev()
+                    res.seen("get_module_info-empty-slot", len(hops))
+                    if st == "ok" and info:
+                        res.violation("get_module_info-empty-slot", f"get_module_info({slot}) over path {path!r}: the slot is empty but the call returned {info!r:.160}", None)
+                    elif st == "exc" and not isinstance(info, p.PycommError):
+                        res.violation(f"get_module_info-foreign-exception:{type(info).__name__}", f"get_module_info({slot}) on an empty slot raised {info!r:.160}", None)
 
             ncalls = 40 if quick else 60
             for k in range(ncalls):
@@ -153,6 +164,7 @@ def run(ctx):
                 req_data = bytes(rng.randrange(256) for _ in range(n))
                 transport = rng.choice(["connected", "ucmm", "unconnected_send"])
                 # reply chosen by the target
+                short_reply = False
                 dt, desc = rng.choice(reply_types)
                 if rng.random() < 0.2:
                     status = rng.choice([1, 2, 4, 5, 8, 0x0E, 0x14, 0x1E, 0xFF, rng.randrange(1, 256)])
@@ -168,6 +180,13 @@ def run(ctx):
                         rdata = rc.encode(desc, val)
                         if desc[0] != "uarray" and rng.random() < 0.4:
                             rdata += bytes(rng.randrange(256) for _ in range(rng.choice([1, 4, 9])))  # trailing reply bytes, as in the docs' capture
+                        elif len(rdata) > 0 and rng.random() < 0.12:
+                            # the device answers fewer bytes than the requested data type needs: no value can be decoded
+                            cut = rdata[: rng.randrange(len(rdata))]
+                            try:
+                                rc.decode(desc, cut)
+                            except rc.RefError:
+                                rdata, short_reply = cut, True
                 state["reply"] = (status, ext, rdata)
                 kwargs = dict(service=service if rng.random() < 0.5 else bytes([service]), class_code=arg_form(rng, cls_v),
                               instance=arg_form(rng, inst_v), request_data=req_data, data_type=dt, name=f"msg{k}")
@@ -237,7 +256,12 @@ def run(ctx):
                                   f"expected {transport} {service:#x} {want_segs!r} {exp_data.hex()[:80]} {exp_route!r}",
                                   {"seen": j, "expected": {"segs": want_segs, "data": exp_data, "route": exp_route}})
                 # ---- the answer ---------------------------------------------------------------------------------
-                if status == 0:
+                if short_reply:
+                    res.seen("short-typed-reply", transport, desc[0])
+                    if tag or tag.value is not None or not tag.error:
+                        res.violation(f"short-typed-reply-not-falsy:{transport}", f"{desc_txt}: target replied status 0 with {len(rdata)} data bytes ({rdata.hex()[:40]}), too few for the "
+                                      f"requested data type {desc!r:.80}; Tag = {tag!r:.200} (expected a falsy Tag with an error text)", {"reply": rdata})
+                elif status == 0:
                     if desc is None:
                         want_val = rdata
                         okv = isinstance(tag.value, (bytes, bytearray)) and bytes(tag.value) == rdata
